@@ -359,7 +359,8 @@ def handle (s : DState) (toks : List String) : IO DState := do
   | ["run", d] =>
     let w := w.simulateInit
     IO.println s!"runbegin {w.env.now} {parseInt d}"
-    let (w, r) := w.runBegin (parseInt d)
+    let s ← printState { s with w := w }
+    let (w, r) := s.w.runBegin (parseInt d)
     if r != .ok then IO.println ("res " ++ r.str)
     let s ← runIO { s with w := w } 0
     IO.println s!"ran {s.w.env.now}"
